@@ -1,6 +1,24 @@
 #include "bitrate.spec.h"
 #include VERIF_SRC
+/* VERIF_LIMITS: 1 = hard max only, 2 = hard min only, 3 = both; VERIF_W: block flag */
+long nondet_long(void);
 void h_bitrate_addblock(void) {
-  vorbis_block *vb;
+  vorbis_block *vb = malloc(sizeof(*vb));
+  vorbis_block_internal *vbi = malloc(sizeof(*vbi));
+  vorbis_dsp_state *vd = malloc(sizeof(*vd));
+  private_state *b = malloc(sizeof(*b));
+  vorbis_info *vi = malloc(sizeof(*vi));
+  codec_setup_info *ci = malloc(sizeof(*ci));
+  vb->internal = vbi; vb->vd = vd; vd->backend_state = b; vd->vi = vi; vi->codec_setup = ci;
+  for (int i = 0; i < PACKETBLOBS; i++) vbi->packetblob[i] = malloc(sizeof(oggpack_buffer));
+  vb->W = VERIF_W;
+  b->bms.managed = 1;
+  b->bms.avg_bitsper = 0;
+#if VERIF_LIMITS == 1
+  b->bms.min_bitsper = 0;
+#elif VERIF_LIMITS == 2
+  b->bms.max_bitsper = 0;
+#endif
+  g_R0 = b->bms.minmax_reservoir;
   vorbis_bitrate_addblock(vb);
 }
